@@ -345,6 +345,76 @@ def validate_traces(chk, tier, seed, sampled, rejected):
 CHUNK_BYTES = 16 << 20
 
 
+def stretch_at(b, tok):
+    """Lex.tla StretchAt: (0-based insertion offset, filler byte) or None."""
+    kind, s0 = tok[0], tok[1]
+    c = b[s0] if s0 < len(b) else 256
+    if kind == "Whitespace":
+        return s0, 32
+    if kind == "Comment":
+        return (s0 + 1, 97) if c == 35 else (s0 + 2, 97)
+    if kind == "String" and c in (34, 39):
+        return s0 + 1, 97
+    if kind == "String" and c == 64:
+        return s0 + 2, 97
+    return None
+
+
+def stretch_part(chk, res, rnd):
+    """Tokens of 2^25 / 2^26 bytes (where the packed span id changes representation): a case of the items3
+    universe is stretched inside one comment / whitespace run / string by the law LawStretchR of Lex.tla
+    (checked by TLC for k = 1, 2), expected kinds and spans follow by shifting."""
+    by_kind = {}
+    for c in res.lines("CASE"):
+        if c["st"] != "ok":
+            continue
+        for j, t in enumerate(c["t"]):
+            p = stretch_at(c["b"], t)
+            if p is not None:
+                key = (t[0], c["b"][t[1]])
+                by_kind.setdefault(key, [])
+                if len(by_kind[key]) < 40:
+                    by_kind[key].append((c, j, p))
+    if len(by_kind) < 5:
+        raise vlib.ToolError(f"stretch part: only {sorted(by_kind)} stretchable token forms in the items3 universe")
+    cases, metas = [], []
+    targets = [2 ** 25 - 1, 2 ** 25, 2 ** 25 + 1, 2 ** 26 - 1, 2 ** 26]
+    for key in sorted(by_kind):
+        picks = rnd.sample(by_kind[key], min(2, len(by_kind[key])))
+        for n, (c, j, (at, byte)) in enumerate(picks):
+            tok = c["t"][j]
+            for target in (targets if n == 0 else rnd.sample(targets, 2)):
+                k = target - (tok[2] - tok[1])
+                exp = []
+                for m, t in enumerate(c["t"]):
+                    exp.append((t[0], t[1] + (k if m > j else 0), t[2] + (k if m >= j else 0)))
+                cases.append({"k": "lex", "hex": bytes(c["b"]).hex(), "compact": True, "values": False,
+                              "stretch": {"at": at, "byte": byte, "count": k}})
+                metas.append((c, j, target, exp))
+    results = run_cases(cases, "c14_stretch", timeout_ms=60000, workers=4, mem_mb=4000)
+    n_ok = 0
+    for case, (c, j, target, exp), r in zip(cases, metas, results):
+        chk.count(key="stretch:" + json.dumps(case, sort_keys=True), nontrivial=True)
+        what = f"{lu.show(c['b'])} with token #{j} ({c['t'][j][0]}) stretched to {target} bytes"
+        if vlib.is_crash(r):
+            chk.disagree({"kind": "lex", "class": "crash", "universe": "stretch", "tok": c["t"][j][0]},
+                         f"{what}: {vlib.crash_desc(r)[:300]}", case)
+            continue
+        for mode, expm in (("all", exp), ("nows", [t for t in exp if t[0] not in ("Whitespace", "Comment")])):
+            a = r.get(mode, {})
+            got = [(t[0], t[1], t[2]) if not isinstance(t, dict) else ("foreign-context", t["start"], t["end"])
+                   for t in a.get("tokens", [])]
+            if "error" in a or got != expm:
+                first = next((x for x in zip(got, expm) if x[0] != x[1]), None)
+                chk.disagree({"kind": "lex", "class": "wrong-span", "universe": "stretch", "tok": c["t"][j][0]},
+                             f"{what}: lex_to_eof({'true' if mode == 'all' else 'false'}) gives "
+                             f"{a.get('error') or first or (len(got), 'tokens')}, specification (LawStretchR) says {expm[:6]}", case)
+                break
+        else:
+            n_ok += 1
+    chk.extra["stretched_tokens"] = {"cases": len(cases), "agree": n_ok, "forms": [f"{k[0]}:{k[1]}" for k in sorted(by_kind)]}
+
+
 def run(tier, seed):
     chk = Check(PROP, tier, seed)
     chk.rule = ("one evaluation = one input byte string lexed by lex_to_eof(true) and lex_to_eof(false); distinct = "
@@ -429,6 +499,9 @@ def run(tier, seed):
         pool.terminate()
         for dname in glob.glob(os.path.join(vlib.WORK, "cases", "c14_w*")):
             shutil.rmtree(dname, ignore_errors=True)
+    t_st = __import__("time").time()
+    stretch_part(chk, dict(futs)["items3"].result(), r)
+    vlib.log(f"[C14] stretched tokens: {__import__('time').time() - t_st:.1f}s")
     for name in cfgs:
         uni = name.replace("_quick", "")
         if uni != "scalar" and not total.outcomes.get(uni):
